@@ -983,6 +983,9 @@ class Interp:
         if isinstance(v, ListV) and v.kind == "slice" and v.items is not None and len(v.items) == 3:
             lo, hi, st_ = (None if isinstance(x, Const) and x.v is None else x for x in v.items)
             return ("slice", lo, hi, st_)
+        if isinstance(v, ListV) and v.kind == "tuple" and v.items is not None and all(not isinstance(x, ListV) or x.kind == "slice" for x in v.items):
+            # x[t] with a tuple value t is x[t0, t1, ...]; x[()] is x itself
+            return ("tuple", tuple(("index", x) for x in v.items))
         return ("index", v)
 
     def e_UnaryOp(self, n, env):
